@@ -156,11 +156,12 @@ func (u *Upstream) closeWithError(ctx context.Context, causeError error, opts ..
 		v(&opt)
 	}
 
-	state := u.stateWithoutLock()
+	// Only the two counters are needed here. Taking a full state snapshot without the stream lock
+	// iterated the alias map while the ack dispatcher may be writing to it.
 	resp, err := u.wireConn.SendUpstreamCloseRequest(ctx, &message.UpstreamCloseRequest{
 		StreamID:            u.ID,
-		TotalDataPoints:     state.TotalDataPoints,
-		FinalSequenceNumber: state.LastIssuedSequenceNumber,
+		TotalDataPoints:     atomic.LoadUint64(&u.totalDataPoints),
+		FinalSequenceNumber: u.sequence.CurrentValue(),
 		ExtensionFields: &message.UpstreamCloseRequestExtensionFields{
 			CloseSession: opt.CloseSession,
 		},
